@@ -1165,17 +1165,27 @@ func propC14(r *Run) {
 			if o.kind != "multi" || (cmd.name != "define" && cmd.name != "search") {
 				continue
 			}
-			var cands []cliHist
+			var cands, cands3 []cliHist
 			for k := 0; k < nCand; k++ {
 				b2 := bases[k].clone()
 				b2.vals[o.long] = []string{"note=a\xffb"}
 				v2 := b2.clone()
 				v2.vals[o.long] = []string{"note=a\xfeb"}
 				cands = append(cands, histOf("sweep/bytes", b2.run(), v2.run(), b2.run()))
+				// a value that is not valid UTF-8 against the TEXT of its own quoted form: an encoding
+				// that quotes only what it has to maps both to the same bytes (seeded change W18-2)
+				b3 := bases[k].clone()
+				b3.vals[o.long] = []string{"note=a\xffb"}
+				v3 := b3.clone()
+				v3.vals[o.long] = []string{strconv.QuoteToASCII("note=a\xffb")}
+				cands3 = append(cands3, histOf("sweep/bytes", b3.run(), v3.run(), b3.run()))
 			}
 			h := cands[0]
 			h.alts = cands[1:]
 			hists = append(hists, h)
+			h3 := cands3[0]
+			h3.alts = cands3[1:]
+			hists = append(hists, h3)
 		}
 		// a secondary FILE whose raw bytes are the text of a literal argument (`@acgt`): the two
 		// invocations hash the same bytes but mean different things (repaired defect F35: the file
